@@ -94,4 +94,17 @@ mod verif_kani_weekday {
             _ => assert!(false, "FromStr accepts exactly the short and long names (any case)"),
         }
     }
+
+    // bounded: strings of at most 16 bytes holding one multi-byte character at any of the first ten byte offsets (a name prefix followed by
+    // non-ASCII text must be rejected by value: slicing at a suffix length that falls inside the character would panic)
+    // fns: FromStr for Weekday (bounded, non-ASCII)
+    #[kani::proof]
+    #[kani::unwind(18)]
+    fn vk_weekday_from_str_multibyte() {
+        let mut buf: [u8; 16] = kani::any();
+        let len = one_multibyte(&mut buf);
+        let s = unsafe { core::str::from_utf8_unchecked(&buf[..len]) };
+        kani::cover!(lower(buf[0]) == b'j' && lower(buf[1]) == b'u' && buf[3] >= 128, "a name prefix followed by a multi-byte character");
+        assert!(Weekday::from_str(s).is_err(), "no name contains a non-ASCII character: rejected, not a panic");
+    }
 }
